@@ -128,6 +128,7 @@ class Env(object):
     def __init__(self, types):
         self.types = types
         self._sets = {}
+        self.vec_pool = {}
 
     def info(self, key):
         return tinfo(self.types, key)
@@ -488,7 +489,7 @@ DIFF_PADS = ['constant', 'symmetric', 'periodic', 'order0', 'order1',
 LAP_PADS = ['constant', 'symmetric', 'periodic', 'order0']
 
 # leaf kinds that are linear maps (true linearity, used for bookkeeping only)
-LINEAR_LEAVES = {'identity', 'scaling', 'matrix', 'multiply', 'multiply_field',
+LINEAR_LEAVES = {'identity', 'flatten', 'scaling', 'matrix', 'multiply', 'multiply_field',
                  'zero', 'partial', 'laplacian', 'inner', 'realpart',
                  'imagpart', 'cembed', 'negative', 'fscaling', 'quadlin',
                  'fscalingfunc', 'zerof', 'pwinner', 'pwsum', 'lincomb',
@@ -502,6 +503,16 @@ def _is_real_of(types, a, b):
     return ta['kind'] == 'real_of' and ta['of'] == b
 
 
+def _plain_unweighted(types, key):
+    """The leaf space ``key`` (followed through real_of / complex_of) is a
+    tensor space without weighting and with exponent 2."""
+    td = types[key]
+    while td['kind'] in ('real_of', 'complex_of'):
+        td = types[td['of']]
+    return (td['kind'] == 'tensor' and td.get('weighting') is None and
+            td.get('exponent', 2.0) == 2.0)
+
+
 def leaf_kinds(types, dom, ran, mode='c04'):
     """Leaf kinds available for the (dom, ran) pair."""
     D, R = tinfo(types, dom), tinfo(types, ran)
@@ -513,6 +524,11 @@ def leaf_kinds(types, dom, ran, mode='c04'):
                 'ufunc', 'ufunc', 'power', 'power', 'constant', 'negative']
         if len(D.shape) >= 1:
             out += ['matrix', 'matrix']
+        if len(D.shape) == 1 and _plain_unweighted(types, dom):
+            # FlatteningOperator: on an unweighted 1-d tensor space it maps
+            # the space to itself and its out-of-place result is a *view* of
+            # the evaluation point
+            out += ['flatten', 'flatten']
         if D.discr and max(D.shape) >= 3:
             out.append('partial')
         if D.discr and min(D.shape) >= 3:
@@ -706,6 +722,12 @@ def build_leaf(env, node):
     S = odl.solvers
     if kind == 'identity':
         return odl.IdentityOperator(D)
+    if kind == 'flatten':
+        op = odl.FlatteningOperator(D)
+        if op.range != R:
+            raise HarnessError('flatten leaf: range {!r} != {!r}'.format(
+                op.range, R))
+        return op
     if kind in ('scaling', 'fscaling'):
         return odl.ScalingOperator(D, scalar_value(a['s']))
     if kind == 'matrix':
@@ -891,6 +913,14 @@ def _field_of(types, key):
     return types[key]['fkey']
 
 
+def _maybe_share(draw, node):
+    """With probability 1/4 mark the vector of this node as *shared*: the
+    build then reuses the element object of an earlier vector node of the same
+    space (if any) instead of creating a fresh element."""
+    if draw(st.integers(0, 3)) == 0:
+        node['vshare'] = draw(st.integers(0, 3))
+
+
 @st.composite
 def trees(draw, types, dom, ran, depth, mode='c04', pairs=None,
           ctor_weights=None):
@@ -994,13 +1024,17 @@ def trees(draw, types, dom, ran, depth, mode='c04', pairs=None,
         a, b = sub_full(), sub()
         if draw(st.booleans()):
             a, b = b, a
+        view_ok = mode == 'c04' and dom == ran and D.cat == 'leaf' and \
+            'flatten' in leaf_kinds(types, dom, ran, mode)
         if rule == 'sum' and mode == 'c04' and dom == ran and \
                 D.cat == 'leaf' and \
                 draw(st.sampled_from([True, False, False, False])):
             # a summand that implements only the out-of-place _call, in
-            # either position (OperatorSum then mixes both call styles)
+            # either position (OperatorSum then mixes both call styles), or
+            # one whose out-of-place result is a view of the evaluation point
             kinds = ['compgrad', 'compgrad'] + (
-                [] if D.cplx else ['realpart', 'cmod', 'cmodsq'])
+                [] if D.cplx else ['realpart', 'cmod', 'cmodsq']) + (
+                ['flatten', 'flatten'] if view_ok else [])
             k = draw(st.sampled_from(kinds))
             lf = {'op': 'leaf', 'kind': k, 'dom': dom, 'ran': ran,
                   'fk': 'op', 'args': {}}
@@ -1008,6 +1042,14 @@ def trees(draw, types, dom, ran, depth, mode='c04', pairs=None,
                 lf['args']['name'] = draw(st.sampled_from(['sin', 'cos',
                                                            'square']))
             if draw(st.sampled_from(['left', 'right'])) == 'left':
+                a = lf
+            else:
+                b = lf
+        elif rule in ('diff', 'pwprod') and view_ok and \
+                draw(st.integers(0, 5)) == 0:
+            lf = {'op': 'leaf', 'kind': 'flatten', 'dom': dom, 'ran': ran,
+                  'fk': 'op', 'args': {}}
+            if draw(st.booleans()):
                 a = lf
             else:
                 b = lf
@@ -1085,22 +1127,26 @@ def trees(draw, types, dom, ran, depth, mode='c04', pairs=None,
     if rule == 'rvec':
         node['a'] = sub_full()
         node['v'] = draw(values(types, dom))
+        _maybe_share(draw, node)
         node['how'] = draw(st.sampled_from(['op', 'op', 'matmul', 'ctor']))
         node['fk'] = node['a']['fk'] if node['how'] != 'ctor' else 'op'
         return node
     if rule == 'lvec':
         node['a'] = sub_full()
         node['v'] = draw(values(types, ran))
+        _maybe_share(draw, node)
         node['how'] = draw(st.sampled_from(['op', 'op', 'rmatmul', 'ctor']))
         return node
     if rule == 'flvec':
         node['a'] = sub_full(dom, fkey_ran)
         node['v'] = draw(values(types, ran))
+        _maybe_share(draw, node)
         node['how'] = draw(st.sampled_from(['op', 'op', 'rmatmul', 'ctor']))
         return node
     if rule == 'addvec':
         node['a'] = flvec_child() or sub_full()
         node['v'] = draw(values(types, ran))
+        _maybe_share(draw, node)
         node['how'] = draw(st.sampled_from(['A+v', 'v+A', 'A-v', 'v-A',
                                             'ctor']))
         return node
@@ -1150,6 +1196,7 @@ def trees(draw, types, dom, ran, depth, mode='c04', pairs=None,
             return child
         node['a'] = child
         node['v'] = draw(values(types, dom))
+        _maybe_share(draw, node)
         node['how'] = 'op'
         node['fk'] = 'func'
         return node
@@ -1206,7 +1253,8 @@ def _pspace_node(draw, types, dom, ran, depth, mode, pairs, pctors):
 
 class BNode(object):
     """A tree node together with its live ODL object."""
-    __slots__ = ('node', 'obj', 'kids', 'vec', 'vec_np', 'scal', 'scal_val',
+    __slots__ = ('node', 'obj', 'kids', 'vec', 'vec_np', 'vec_shared', 'scal',
+                 'scal_val',
                  'shortcut')
 
     def __init__(self, node):
@@ -1214,6 +1262,7 @@ class BNode(object):
         self.obj = None
         self.kids = []
         self.vec = self.vec_np = self.scal = self.scal_val = None
+        self.vec_shared = False
         self.shortcut = None
 
 
@@ -1359,8 +1408,19 @@ def _build_node(env, b):
     dom, ran = node['dom'], node['ran']
 
     def vec(key):
-        b.vec_np = env.np_value(key, node['v'])
-        b.vec = env.element(key, b.vec_np)
+        # 'vshare': k -- use the very element *object* of an earlier vector
+        # node of the same space (children are built before parents), as a
+        # user does who passes one element to several sub-expressions. The
+        # reference keeps the values the object had when it was created.
+        pool = env.vec_pool.setdefault(key, [])
+        k = node.get('vshare')
+        if k is not None and pool:
+            b.vec_np, b.vec = pool[int(k) % len(pool)]
+            b.vec_shared = True
+        else:
+            b.vec_np = env.np_value(key, node['v'])
+            b.vec = env.element(key, b.vec_np)
+            pool.append((b.vec_np, b.vec))
         return b.vec
 
     if op == 'sum':
